@@ -402,9 +402,10 @@ def gen_c10(tier, seed):
         for bk in ("heap", "reloc"):
             c = G.Case("cap%d" % n, layout); n += 1
             c.new(0, bk, "clone")
-            npush = 200 if layout[0] not in (1, 2, 3) else 200
-            if layout[0] == 1: npush = 200
-            for _ in range(npush if q else 1000 if layout[0] >= 8 or layout[0] == 0 else 200): c.add(rng.choice(["push 0 w0", "tpush 0", "push 0 r0"]))
+            # long enough to take the block beyond two pages (a growth policy that changes with the block size shows)
+            npush = min(max(2 * 4096 // max(layout[0], 1) + 40, 200), 1200 if q else 9000)
+            if layout[0] == 1: npush = 200        # one-byte identities wrap at 256
+            for _ in range(npush): c.add(rng.choice(["push 0 w0", "tpush 0", "push 0 r0"]))
             teardown(c); cases.append(c)
     # capacity calls interleaved with element-wise operations
     for i in range(30 if q else 200):
@@ -548,6 +549,11 @@ def gen_c14(tier, seed):
             c = G.Case("it%d" % n, layout); n += 1
             c.new(0, "heap", "clone"); G.fill(c, 0, L, rng)
             for cs in G.choice_strings(L, 2, rng, cap=200 if q else 600): c.add("iter 0 %s" % (cs or "-"))
+            # a clone taken after any prefix of calls continues exactly like the original
+            strs = list(G.choice_strings(L, 1, rng, cap=40 if q else 120))
+            for pre in strs:
+                for post in rng.sample(strs, min(len(strs), 4 if q else 10)):
+                    c.add("iterc 0 %s %s" % (pre or "-", post or "-"))
             teardown(c); cases.append(c)
             for s in range(L + 1):
                 for e in range(s, L + 1):
@@ -567,7 +573,7 @@ def gen_c14(tier, seed):
 PROPS["C14"] = {"gen": gen_c14, "proj": {}, "kinds": SEM,
     "rule": "every state up to the bound, every sub-range for drain/splice (erased and typed), every next/next_back "
             "interleaving up to range length + 2 calls (all 2^n strings while small, sampled beyond): yielded element and "
-            "len()/size_hint at every step, None after exhaustion",
+            "len()/size_hint at every step, None after exhaustion; clones of an iterator taken after every prefix of calls",
     "design_ref": "DESIGN.md section 7, C14"}
 
 # ------------------------------------------------------------------------------------------ C17
